@@ -4,5 +4,6 @@ INIT Init
 NEXT Next
 INVARIANTS
   HistoryFree
+  OnlyExactServed
   Emit
 CHECK_DEADLOCK FALSE
